@@ -342,7 +342,15 @@ def oracle_C11(case):  # noqa: F811
         lexemes, seps_a, seps_b, casing = case
         words = _oc._c11_words(lexemes)
         if len(seps_a) == len(seps_b) == len(words) - 1:
-            seps_b = tuple(sa if words[i] == ';' else sb for i, (sa, sb) in enumerate(zip(seps_a, seps_b)))
+            keep, tail = [], False
+            for i, w in enumerate(words[:-1]):
+                # the trivia between a terminator and the next statement: the ';' itself and the comments that follow it
+                if w == ';':
+                    tail = True
+                elif not (tail and (w.startswith('--') or w.startswith('/*') or w.startswith('#'))):
+                    tail = False
+                keep.append(tail)
+            seps_b = tuple(sa if k else sb for k, sa, sb in zip(keep, seps_a, seps_b))
             case = (lexemes, seps_a, seps_b, casing)
     except Exception:       # noqa
         pass
